@@ -78,7 +78,10 @@ func init() {
 			lateF := r.P.Field("workers/wmark", "Watermarker", "allowedLateness")
 			r.Site(f.Decl.Pos(), "CurrentWatermark expression")
 			var ret *ast.ReturnStmt
-			inspect(f.Decl.Body, func(nd ast.Node) bool {
+			ast.Inspect(f.Decl.Body, func(nd ast.Node) bool { // the function's own returns, not those of helpers it calls
+				if _, ok := nd.(*ast.FuncLit); ok {
+					return false
+				}
 				if rs, ok := nd.(*ast.ReturnStmt); ok {
 					ret = rs
 				}
@@ -147,9 +150,9 @@ func init() {
 			// "the event being forwarded": the variable whose Key is the routing key
 			baseOf := func(c *pathsim.Ctx, e ast.Expr, field string) types.Object {
 				var obj types.Object
-				inspect(e, func(m ast.Node) bool {
+				inspectValue(c.Info, e, func(m ast.Node) bool { // (through `t := ev.Timestamp.AsTime()` locals)
 					if sel, ok := m.(*ast.SelectorExpr); ok && sel.Sel.Name == field && obj == nil {
-						obj = prog.IdentObj(c.Info, sel.X)
+						obj = derefObj(c.Info, sel.X)
 					}
 					return true
 				})
@@ -299,6 +302,7 @@ func init() {
 			minFunc := r.P.FuncObj("util/iteru", "MinFunc")
 			var storePos, minPos, cachePos = ast.Node(nil), ast.Node(nil), ast.Node(nil)
 			var comp types.Object
+			cacheUnchecked := false
 			inspect(f.Decl.Body, func(nd ast.Node) bool {
 				if _, isLit := nd.(*ast.FuncLit); isLit {
 					return false
@@ -324,7 +328,13 @@ func init() {
 						r.Fail(f.Name()+":upstream-value", as.Pos(), nil, "the recorded upstream watermark is not the message's timestamp")
 					}
 				}
-				if call, ok := ast.Unparen(as.Rhs[0]).(*ast.CallExpr); ok && r.P.CalleeFunc(info, call) == minFunc {
+				minRhs := ast.Unparen(as.Rhs[0])
+				if c, ok := minRhs.(*ast.CallExpr); ok {
+					if b := helperReturnExpr(info, c); b != nil {
+						minRhs = ast.Unparen(b) // an extracted helper whose body is `return iteru.MinFunc(...)`
+					}
+				}
+				if call, ok := minRhs.(*ast.CallExpr); ok && r.P.CalleeFunc(info, call) == minFunc {
 					minPos = as
 					comp = prog.IdentObj(info, as.Lhs[0])
 					okArgs := false
@@ -341,12 +351,45 @@ func init() {
 				}
 				if prog.SelField(info, as.Lhs[0]) == wm {
 					cachePos = as
-					if comp == nil || prog.IdentObj(info, as.Rhs[0]) != comp {
+					if comp != nil && prog.IdentObj(info, as.Rhs[0]) != comp {
 						r.Fail(f.Name()+":cache-value", as.Pos(), nil, "the cached watermark is not the composite just computed")
+					}
+					if comp == nil {
+						cacheUnchecked = true
 					}
 				}
 				return true
 			})
+			// the hand-written minimum: a loop over the upstreams that keeps the earliest value
+			if minPos == nil {
+				ast.Inspect(f.Decl.Body, func(nd ast.Node) bool {
+					if _, isLit := nd.(*ast.FuncLit); isLit {
+						return false
+					}
+					rs, ok := nd.(*ast.RangeStmt)
+					if !ok || prog.SelField(info, rs.X) != ups || rs.Value == nil {
+						return true
+					}
+					best := r.keepBestDir(info, rs.Body, f.Name()+":min-loop", -1,
+						func(e ast.Expr) bool { return usesTimeCompare(info, e) },
+						func(x string) []string { return []string{x} },
+						"no value yet || upstream watermark < current minimum")
+					if best != nil {
+						minPos, comp = rs, best
+					}
+					return true
+				})
+				// the cache assignment was visited before comp was known: re-check it
+				if comp != nil && cachePos != nil && cacheUnchecked {
+					cacheUnchecked = false
+					if as := cachePos.(*ast.AssignStmt); prog.IdentObj(info, as.Rhs[0]) != comp {
+						r.Fail(f.Name()+":cache-value", as.Pos(), nil, "the cached watermark is not the composite just computed")
+					}
+				}
+			}
+			if cacheUnchecked && cachePos != nil {
+				r.Fail(f.Name()+":cache-value", cachePos.Pos(), nil, "the cached watermark is not the composite just computed")
+			}
 			r.Site(f.Decl.Pos(), "AdvanceWatermark: record, minimum, cache")
 			if storePos == nil || minPos == nil || cachePos == nil {
 				r.Fail(f.Name()+":steps", f.Decl.Pos(), nil, "AdvanceWatermark must record the sender's watermark, compute the minimum over upstreams and cache it (record=%v min=%v cache=%v)", storePos != nil, minPos != nil, cachePos != nil)
@@ -453,7 +496,7 @@ func init() {
 					return true
 				}
 				r.Site(kv.Pos(), "ProcessEventBatchRequest.Watermark")
-				inspect(kv.Value, func(m ast.Node) bool {
+				inspectValue(info, kv.Value, func(m ast.Node) bool { // (a local read from the registry in this function counts)
 					if sel, isSel := m.(*ast.SelectorExpr); isSel && prog.SelField(info, sel) == wm && prog.SelField(info, sel.X) == reg {
 						ok = true
 					}
